@@ -2,6 +2,8 @@ package main
 
 import (
 	"fmt"
+	"go/token"
+	"go/types"
 	"os"
 	"sort"
 	"strings"
@@ -35,6 +37,7 @@ func checkC06(c *Ctx) {
 	r.Rule("R05.10", "(shared with C05) the message is handed on as given from the verbs to the encoder's message field")
 	r.Rule("R02.3", "(shared with C02) what is handed to the destination is the finished record: the payload is the formatting buffer's Bytes() taken right after End(true); nothing cuts, truncates or re-slices the record after the colours were closed")
 	r.Rule("R02.6", "(shared with C02) the pooled formatting context is returned to the pool by the normal path only, after the Write, and not used afterwards: a context put back by a deferred call after a panic inside a value's own method carries the half-built state (group prefix, colours) into the records that follow")
+	r.Rule("R06.7", "values emitted by user marshallers: every exported Add*(.., value string) helper of the encoder that MarshalSlogObject/MarshalSlogArray receive passes its string value through the quoting routine on every path of colored mode (no verbatim forwarding to the buffer)")
 	r.Rule("R06.4", "no pooled encoder field is read stale in colored mode (engine E10): remaining lines, colours and the end-of-line flag of a previous record cannot surface")
 	r.Assume("messages contain no escape bytes and no HTML-like markup (the property's domain for hygiene/layout); the markup translator of the dependency is treated as text")
 	mode := Mode{false, false}
@@ -83,7 +86,9 @@ func checkC06(c *Ctx) {
 		c17Tags(c, p, m)
 		fieldOrder(c, p, m, mode, "R06.3", []string{"Begin", "printTimestamp", "printLoggerName", "printSeverity", "printFirstLineOfMsg", "serializeAttrs", "printPC", "printRestLinesOfMsg", "End", "Bytes", "printOut"}, map[string]bool{"printPC": true})
 		c09Pooled(c, p, m, "R06.4", []Mode{mode})
+		marshallerStringHelpers(c, p, m, mode, "R06.7")
 	}
+	c.Floor["R06.7"] = 2
 	c.Floor["R06.2"] = 5
 	c.Floor["R06.1"] = 3
 }
@@ -347,5 +352,60 @@ func c06EveryLine(c *Ctx, p *Prog, m *Model, mr *ModeReach) {
 	}
 	if n == 0 {
 		r.Ok("R06.4", "every-line", "-", "no function of the colored print tree indexes the pieces of a text split at line breaks")
+	}
+}
+
+// marshallerStringHelpers (R06.7): the encoder handed to user marshallers (MarshalSlogObject/MarshalSlogArray receive the
+// *PrintCtx itself) offers exported Add* key/value helpers; a string `value` parameter of such a helper is an attribute
+// value, so in the given mode no path of the helper may forward it verbatim into the record (raw-forwarding fixpoint of
+// emit.go, rooted at the helpers themselves because the library's own print path does not reach them in this mode).
+func marshallerStringHelpers(c *Ctx, p *Prog, m *Model, mode Mode, rule string) {
+	r := c.R
+	var roots []*ssa.Function
+	type inst struct {
+		fn  *ssa.Function
+		idx int
+	}
+	var insts []inst
+	for _, fn := range p.RepoFuncs() {
+		if fn.Signature.Recv() == nil || typeName(fn.Signature.Recv().Type()) != "PrintCtx" || fn.Parent() != nil {
+			continue
+		}
+		if !strings.HasPrefix(fn.Name(), "Add") || !token.IsExported(fn.Name()) {
+			continue
+		}
+		for i, prm := range fn.Params {
+			if i == 0 || prm.Name() != "value" {
+				continue
+			}
+			if b, ok := prm.Type().Underlying().(*types.Basic); ok && b.Kind() == types.String {
+				roots = append(roots, fn)
+				insts = append(insts, inst{fn, i})
+			}
+		}
+	}
+	if len(insts) < 2 {
+		r.Unk(rule, "marshaller-helper:instances", "-", "only %d exported Add*(.., value string) helpers of the encoder found (2 confirmed by hand: AddString, AddPrefixedString): anchor lost", len(insts))
+		return
+	}
+	mr := NewModeReach(p, m, mode, roots, true)
+	ra := &rawAnalysis{mr: mr}
+	ra.run()
+	for _, in := range insts {
+		key := fmt.Sprintf("marshaller-helper[%s]:%s", mode, shortName(in.fn))
+		if !mr.Has(in.fn) {
+			r.Unk(rule, key, p.FuncPos(in.fn), "the helper has no feasible block in %s mode", mode)
+			continue
+		}
+		raw := ra.fwd[in.fn][in.idx]
+		if !raw {
+			// a site inside the helper that copies the parameter itself is recorded as forwarding too; sites with other classes are R06.2's business
+			for _, s := range ra.Sites {
+				if origin(s.Fn) == in.fn && s.Classes[fmt.Sprintf("param:%d", in.idx)] {
+					raw = true
+				}
+			}
+		}
+		r.Check(!raw, rule, key, p.FuncPos(in.fn), "the string value goes through the quoting routine on every path of "+mode.String()+" mode", "in "+mode.String()+" mode the helper copies its string value into the record verbatim on some path: a value emitted by a user marshaller (enc."+in.fn.Name()+"(..)) carries escape or control bytes and line breaks into the terminal output")
 	}
 }
